@@ -231,9 +231,10 @@ def undill(pid):
 
 def add_obligations(pack, ss, tier, pid='C02'):
     pack.trust('generated functions are called with the argument list built by refresh_inputs_arg (star-call)',
-               'Model.get_md5 hashes the declared strings of the model (not decided: that it covers every string the generator '
-               'depends on)')
-    run_contracts(pack, [(fg_update(pid, 'f'), None, replay_fg_update('f')), (fg_update(pid, 'g'), None, replay_fg_update('g')), (refresh_inputs_arg(pid),), (find_stale(pid),), (undill(pid),), (generate_pycode_tail(pid),)])
+               'md5 separates different feeds (collisions and concatenation ambiguity are not modelled); the generator reads no declared '
+               'field besides those named in the contract of Model.get_md5 (v_str, v_iter, e_str, diag_eps, service v_str / sequential, '
+               'exported flags, names)')
+    run_contracts(pack, [(fg_update(pid, 'f'), None, replay_fg_update('f')), (fg_update(pid, 'g'), None, replay_fg_update('g')), (refresh_inputs_arg(pid),), (find_stale(pid),), (undill(pid),), (generate_pycode_tail(pid),), (get_md5(pid), None, replay_get_md5)])
 
 
 FSP = 'andes/core/symprocessor.py'
@@ -335,3 +336,133 @@ def bounded_overwrite(pack, ss, d, pid='C02'):
         pack.violation(name, {'bounded': True, 'model': bad, 'native_cmd': 'alter the first return of pycode/%s.py keeping the md5 line, call '
                               'model.prepare(quick=True, pycode_path=dir); the altered file survives' % bad})
     return tried
+
+
+def get_md5(pid):
+    """Model.get_md5: the checksum is taken over a feed that contains, for every variable of the model, each of its declared strings
+    v_str, v_iter, e_str and its diag_eps that is not None; for every service its v_str (when not None) and its sequential flag; for
+    every discrete component its exported flags; and every parameter / variable / service / discrete name.  (That md5 itself separates
+    different feeds is assumed; what is decided is that no declared field is left out of the feed.)"""
+    from pyvc.symval import Mark, TOptional, MaybeNone
+    STR_R = z3.Function('str_of_float', R, K)
+    STR_I = z3.Function('str_of_int', I, K)
+    JOIN = z3.Function('join_flags', z3.ArraySort(I, K), I, K)
+    EV, ES, ED = 'self.cache.all_vars.$e', 'self.services.$e', 'self.discrete.$e'
+
+    def md5_new(ex, st, args, kw, node):
+        return Mark('md5')
+
+    def update(ex, st, args, kw, node):
+        base, x = args[0], args[1]
+        ex.oblige(st, 'pre@call:update-on-the-md5-object', z3.BoolVal(isinstance(base, Mark) and base.kind == 'md5'), {})
+        t = x.term if isinstance(x, Opaque) else (TStr.lit(x) if isinstance(x, str) else None)
+        if t is None:
+            raise Unsupported('md5.update(%r)' % (x,))
+        st.ghost['fed'] = st.ghost['fed'] + [t]
+        return None
+
+    def str_(ex, st, args, kw, node):
+        x = args[0]
+        if isinstance(x, MaybeNone):
+            ex.oblige(st, 'str()-of-a-declared-field-that-is-not-None', z3.Not(x.isnone), {})
+            x = x.value
+        if isinstance(x, str) or (isinstance(x, Opaque) and x.term.sort() == K):
+            return x
+        if isinstance(x, NR):
+            return Opaque(STR_R(x.val))
+        if isinstance(x, bool):
+            return Opaque(STR_I(z3.IntVal(int(x))))
+        if isinstance(x, int):
+            return Opaque(STR_I(z3.IntVal(x)))
+        if z3.is_expr(x) and z3.is_int(x):
+            return Opaque(STR_I(x))
+        raise Unsupported('str(%r)' % (x,))
+
+    def encode(ex, st, args, kw, node):
+        return args[0]
+
+    def join(ex, st, args, kw, node):
+        base, arg = args
+        if base == ',' and isinstance(arg, Ref) and isinstance(st.content(arg), SeqC):
+            c = st.content(arg)
+            return Opaque(JOIN(c.arr, c.n))
+        raise Unsupported('join of %r' % (arg,))
+
+    def as_dict(ex, st, args, kw, node):
+        n = fresh('n_config', I)
+        st.assume(n >= 0)
+        return Coll('self.config.$fields', n, K)
+
+    def reset(v):
+        v.st.ghost['fed'] = []
+        v.st.ghost['in_iter'] = True
+        return True
+
+    def fed(v, term):
+        f = v.st.ghost['fed']
+        return z3.Or(*[t == term for t in f if t.sort() == term.sort()]) if f else z3.BoolVal(False)
+
+    def opt(v, path, conv=lambda t: t):
+        x = v.st.load(path)
+        if isinstance(x, MaybeNone):
+            val = x.value
+            t = conv(val.term if isinstance(val, Opaque) else val.val if isinstance(val, NR) else to_z3(val))
+            return z3.Or(x.isnone, fed(v, t))
+        t = conv(x.term if isinstance(x, Opaque) else x.val if isinstance(x, NR) else to_z3(x))
+        return fed(v, t)
+
+    def inv_vars(v):
+        if not v.st.ghost.get('in_iter'):
+            return True
+        return z3.And(opt(v, EV + '.v_str'), opt(v, EV + '.v_iter'), opt(v, EV + '.e_str'), opt(v, EV + '.diag_eps', lambda t: STR_R(t)),
+                      z3.BoolVal(len(v.st.ghost['fed']) >= 1))
+
+    def inv_services(v):
+        if not v.st.ghost.get('in_iter'):
+            return True
+        b = v.st.load(ES + '.sequential')
+        b = b if z3.is_expr(b) else z3.BoolVal(bool(b))
+        return z3.And(opt(v, ES + '.v_str'), fed(v, STR_I(z3.If(b, z3.IntVal(1), z3.IntVal(0)))))
+
+    def inv_discrete(v):
+        if not v.st.ghost.get('in_iter'):
+            return True
+        c = v.st.content(v.st.load(ED + '.export_flags'))
+        return fed(v, JOIN(c.arr, c.n))
+
+    def inv_names(v):
+        if not v.st.ghost.get('in_iter'):
+            return True
+        return z3.BoolVal(len(v.st.ghost['fed']) >= 1)
+    c = Contract(FM, 'Model.get_md5', pid=pid, params={'self': TObj()},
+                 schema={'self.cache.all_params': TColl(K), 'self.cache.all_vars': TColl(K), 'self.services': TColl(K), 'self.discrete': TColl(K),
+                         EV + '.v_str': TOptional(TStr()), EV + '.v_iter': TOptional(TStr()), EV + '.e_str': TOptional(TStr()),
+                         EV + '.diag_eps': TOptional(TReal()), ES + '.v_str': TOptional(TStr()), ES + '.sequential': TBool(),
+                         ED + '.export_flags': TSeq(K)},
+                 calls={'hashlib.md5': md5_new, '<value>.update': update, 'str': str_, '<value>.encode': encode, '<value>.join': join,
+                        'self.config.as_dict': as_dict, '<value>.hexdigest': lambda ex, st, a, k, n: Opaque(fresh('digest', K))},
+                 loops={0: Loop(inv=[('every-parameter-name-is-fed', inv_names)], assume=[('reset', reset)], frame=['$name']),
+                        1: Loop(inv=[('every-config-field-name-is-fed', inv_names)], assume=[('reset', reset)], frame=['$name']),
+                        2: Loop(inv=[('v_str,v_iter,e_str,diag_eps-of-the-variable-are-fed-when-declared', inv_vars)], assume=[('reset', reset)],
+                                frame=['$name', '$item', EV + '.*']),
+                        3: Loop(inv=[('v_str-and-sequential-flag-of-the-service-are-fed', inv_services)], assume=[('reset', reset)],
+                                frame=['$name', '$item', ES + '.*']),
+                        4: Loop(inv=[('exported-flags-of-the-discrete-component-are-fed', inv_discrete)], assume=[('reset', reset)],
+                                frame=['$name', '$item', ED + '.*'])},
+                 ensures=[], modifies=[])
+
+    def pre_state(st):
+        st.ghost['fed'] = []
+        st.ghost.pop('in_iter', None)
+    c.pre_state = pre_state
+    c.merge = False
+    return c
+
+
+def replay_get_md5(obligation, model, meta):
+    """native run: the checksum of every shipped model reacts to a change of each declared field (contracts/bounded_md5.py)"""
+    from contracts import bounded_md5
+    n, bad = bounded_md5.run()
+    if bad:
+        return {'confirmed': True, 'inputs': bad, 'observed': bad.get('observed'), 'native_cmd': 'contracts/bounded_md5.py'}
+    return {'confirmed': False, 'tried': n}
